@@ -131,7 +131,7 @@ def r1(ctx: RuleCtx) -> None:
     ctx.note('operator nodes built outside the parser (any expression may stand in the operand): '
              + (', '.join(f'{PR.kname(k)}.{a}' for k, a in sorted(synth, key=str)) or 'none'))
 
-    meths = pmod.methods('AstPrinter')
+    meths = PR.inline_cms(pmod.methods('AstPrinter'))
     top = lad.top() + 1
     # group concrete parent kinds by (class, attribute)
     slots: T.Dict[T.Tuple[str, str], T.List[LD.Kind]] = {}
